@@ -493,7 +493,9 @@ func TestC11Legacy(t *testing.T) {
 			c.Tgt++
 		}
 		c.Slot = rapid.SampledFrom(vals).Draw(rt, "slot")
+		stop := vkit.Watch(c, 300*time.Second)
 		v := runLegacy(c)
+		stop()
 		vkit.S.Eval()
 		vkit.S.Class("legacy-store")
 		if (c.Att && c.Tgt != 0) || (c.Prop && c.Slot != 0) {
